@@ -435,6 +435,11 @@ def scen_c04(rnd, n_values, n_proofs):
         pv = {"seed": rnd.randrange(1 << 30), "bits": bits}
         if rnd.random() < 0.3:
             pv["single"] = k % 20
+        # boundary values among the path elements: all 0 / 1 / p-1, or 0 at some levels (not only the leaf level)
+        if k % 9 == 4:
+            pv["all"] = ["zero", "one", "pm1"][(k // 9) % 3]
+        elif k % 9 == 7:
+            pv["zero_at"] = sorted({rnd.randrange(20), rnd.randrange(1, 20), k % 20})
         entry = "values" if k < n_values else rnd.choice(["witness", "raw", "vector"])
         sc.append(prove_op(f"v{k}", entry, s, 0, I(lim), I(mid), e, {"len": rnd.choice([0, 1, 136, 50]), "seed": k}, mut={"path": pv}, c04=True))
     # chains of consecutive calls that differ in exactly ONE input (a value memoised under an incomplete key shows here)
